@@ -179,3 +179,41 @@ Fixpoint py_filterM {A} (c : A -> result bool) (xs : list A) : result (list A) :
   | [] => Ok []
   | x :: t => do b <- c x; do r <- py_filterM c t; Ok (if b then x :: r else r)
   end.
+
+(* ------------------------------------------------------------------------------------------------ while (idiom while-as-fuel) *)
+(* while c: body   — the test is evaluated first; if it holds and the fuel is used up the answer is Err "OutOfFuel"
+   (not a Python exception: the loop did not end within the fuel), else the body runs with one unit of fuel less.
+   The body may raise (Err), return (Ret) or fall through (Next); the test may raise. *)
+Fixpoint py_while {R S} (fuel : nat) (cond : S -> result bool) (body : S -> result (ctl R S)) (s : S) {struct fuel}
+  : result (ctl R S) :=
+  match cond s with
+  | Err e => Err e
+  | Ok false => Ok (Next s)
+  | Ok true =>
+      match fuel with
+      | O => Err "OutOfFuel"
+      | S fuel' => match body s with
+                   | Ok (Next s') => py_while fuel' cond body s'
+                   | Ok (Ret r) => Ok (Ret r)
+                   | Err e => Err e
+                   end
+      end
+  end.
+
+(* [e for x in xs] where evaluating e consumes a threaded state (idiom rng-as-decision-stream): items in order *)
+Fixpoint py_mapM_st {A B S} (f : A -> S -> result (B * S)) (xs : list A) (s : S) : result (list B * S) :=
+  match xs with
+  | [] => Ok ([], s)
+  | x :: t => do r <- f x s; do r' <- py_mapM_st f t (snd r); Ok (fst r :: fst r', snd r')
+  end.
+
+(* l.remove(x): drops the first item equal to x, ValueError if there is none *)
+Fixpoint py_list_remove {A} (eqb : A -> A -> bool) (l : list A) (x : A) : result (list A) :=
+  match l with
+  | [] => Err "ValueError"
+  | h :: t => if eqb h x then Ok t else do t' <- py_list_remove eqb t x; Ok (h :: t')
+  end.
+
+(* a, b = xs for a list xs: ValueError unless xs has exactly two items *)
+Definition py_unpack2 {A} (xs : list A) : result (A * A) :=
+  match xs with [a; b] => Ok (a, b) | _ => Err "ValueError" end.
